@@ -108,3 +108,27 @@ Lemma splice_one s m f v st en : m_whole m = (v, st, en) ->
 Proof.
   intro H. cbn [splice]. rewrite H. cbn [skipn Z.to_nat]. rewrite Z.sub_0_r. reflexivity.
 Qed.
+
+(* searchAll with a lazy selector: element i shows the records of match i, whatever is done
+   with the outer sequence first *)
+Lemma search_all_per_match ms sel :
+  search_all_lazy ms sel CToList = map (lsel_eval sel) ms /\
+  search_all_lazy ms sel CPlain = search_all_lazy ms sel CToList /\
+  search_all_lazy ms sel CReverse = rev (search_all_lazy ms sel CToList) /\
+  search_all_lazy ms sel CTake1 = firstn 1 (search_all_lazy ms sel CToList) /\
+  search_all_lazy ms sel CSkip1 = skipn 1 (search_all_lazy ms sel CToList) /\
+  (forall i m, nth_error ms i = Some m ->
+     nth_error (search_all_lazy ms sel CToList) i = Some (lsel_eval sel m)).
+Proof.
+  unfold search_all_lazy, consume. repeat split; try reflexivity.
+  intros i m H. apply map_nth_error. exact H.
+Qed.
+
+(* what a lazy selector reads is the published record of its own match *)
+Lemma lsel_reads_published m k g : ctx_get k (publish m) = Some g ->
+  (forall n, lsel_eval (LValue k n) m = repeat (VStr (fst (fst g))) n) /\
+  lsel_eval (LSpan k) m = [VInt (snd (fst g)); VInt (snd g)] /\
+  (forall thr, lsel_eval (LWhere k thr) m = if Z.gtb (snd g) thr then [VStr (Some [120%Z])] else []).
+Proof.
+  intro H. unfold lsel_eval, var_rec. rewrite H. repeat split; reflexivity.
+Qed.
